@@ -186,8 +186,13 @@ function focusNodes(r, fs_) {
       if (r.bool(0.7)) kids.push({ t: 'if', branches: [{ cond: M.ev(X.id(r.pick(['flag', 'a', 'n']))), node: { t: 'block', children: [{ t: 'el', tag: 'q', attrs: [], children: [{ t: 'text', v: M.mv('yes', X.id('a')) }] }] } }], els: r.bool(0.4) ? { t: 'block', children: [{ t: 'el', tag: 'q', attrs: [], children: [{ t: 'text', v: M.mv('no', X.id('s')) }] }] } : null })
       // text directly in the slot content (no element around it)
       if (r.bool(0.5)) kids.push({ t: 'text', v: M.mv('t:', X.id(r.pick(['a', 's', 'flag']))) })
-      kids.push({ t: 'el', tag: 'q', attrs: [{ fam: 'plain', name: 'w', value: M.ev(X.id('v')) }], slotVals: r.bool(0.7) ? [{ name: 'v' }, { name: 'i' }] : [], children: [{ t: 'text', v: M.mv('', X.id('v'), '-', X.id('i'), '-', X.id(r.pick(['a', 's', 'flag']))) }] })
       const defs = (fs_.files[fs_.main].defs || []).map((d) => d.name)
+      const receives = r.bool(0.7)
+      const inner = [{ t: 'text', v: M.mv('', X.id('v'), '-', X.id('i'), '-', X.id(r.pick(['a', 's', 'flag']))) }]
+      // a list and template data that derive from a slot value: their update trees come from the slot value's own tree
+      if (receives && r.bool(0.35)) inner.push({ t: 'for', list: M.ev(X.bin('||', X.id('v'), X.id('s'))), item: 'ch', index: 'ci', key: undefined, cond: null, node: { t: 'el', tag: 'r', attrs: [{ fam: 'plain', name: 'v', value: M.mv('', X.id('ch'), ':', X.id('ci')) }], children: [] } })
+      if (receives && defs.length && r.bool(0.3)) inner.push({ t: 'tref', is: M.sv(r.pick(defs)), data: X.obj([{ k: 'kv', name: 'a', e: X.id('v') }, { k: 'kv', name: 'b', e: X.id('i') }]) })
+      kids.push({ t: 'el', tag: 'q', attrs: [{ fam: 'plain', name: 'w', value: M.ev(X.id('v')) }], slotVals: receives ? [{ name: 'v' }, { name: 'i' }] : [], children: inner })
       if (defs.length && r.bool(0.3)) kids.push({ t: 'tref', is: M.sv(r.pick(defs)), data: X.obj([{ k: 'kv', name: 'a', e: X.id('a') }]) })
       out.push({ t: 'el', tag: r.pick(['d-s', 'd-k']), attrs: [{ fam: 'plain', name: 'list', value: M.ev(r.pick([() => X.id('list'), () => items, () => X.bin('||', items, X.id('list'))])()) }], children: r.shuffle(kids) })
     } else {
